@@ -35,6 +35,7 @@ pub struct CaseStats {
     pub short_writes: u64,
     pub clock_advances: u64,
     pub clock_advanced_ms: u64,
+    pub would_block: u64,
     pub chunk_inside_utf8: u64,
     pub chunk_inside_line: u64,
     pub p_checks: u64,
@@ -211,6 +212,34 @@ pub fn check_case(case: &Case) -> (Vec<Violation>, CaseStats) {
         return (out, stats);
     }
 
+    // schedule C (one case in three): stdin is non-blocking and reports EAGAIN once, at a line
+    // boundary.  Whether delta then stops (end of input) or retries is not C11's business, but
+    // what it writes must be one of the two: the output for exactly the lines before the stall, or
+    // the output for the whole input — a read error must not make delta render anything differently.
+    if case.p_points[0] % 3 == 0 && case.lines.len() > 2 {
+        let at = 1 + case.p_points[1] % (case.lines.len() - 1);
+        let mut sched: Vec<usize> = case.lines.iter().map(|l| l.text.len() + 1).collect();
+        sched.insert(at, WOULD_BLOCK);
+        let c = run_delta(RunParams { config: &config, data: data.clone(), rschedule: sched, rdelays_ms: vec![], wplan: vec![], fail_at: None, fail_kind: std::io::ErrorKind::BrokenPipe, keep_output: true, record_quiescence: false });
+        stats.delta_runs += 1;
+        stats.would_block += c.shared.would_block_reads as u64;
+        if let (Some(pos), Ok(_)) = (c.shared.would_block_at, &c.result) {
+            if c.shared.out != ref_out {
+                let prefix = Rc::new(data[..pos].to_vec());
+                let f = run_delta(RunParams { config: &config, data: prefix, rschedule: vec![], rdelays_ms: vec![], wplan: vec![], fail_at: None, fail_kind: std::io::ErrorKind::BrokenPipe, keep_output: true, record_quiescence: false });
+                stats.delta_runs += 1;
+                if matches!(f.result, Ok(Ok(()))) && f.shared.out != c.shared.out {
+                    out.push(Violation::new(
+                        "D-delivery-independence",
+                        "D:read-error-changes-rendering",
+                        format!("stdin reported EAGAIN once after {} input lines ({} bytes): the output ({} bytes) is neither the output for the lines before the stall ({} bytes) nor the output for the whole input ({} bytes)", at, pos, c.shared.out.len(), f.shared.out.len(), ref_out.len()),
+                    ));
+                    return (out, stats);
+                }
+            }
+        }
+    }
+
     // oracle P at sampled quiescence points of run B: what has been written is a prefix of what
     // delta writes for exactly the delivered bytes followed by EOF
     let qs = &b.shared.quiescence;
@@ -333,6 +362,7 @@ pub fn merge_stats(into: &mut BTreeMap<String, u64>, s: &CaseStats) {
     add("fault_fired.short_write", s.short_writes);
     add("fault_fired.producer_pause_clock_advance", s.clock_advances);
     add("simulated_time_covered_ms", s.clock_advanced_ms);
+    add("fault_fired.read_would_block", s.would_block);
     add("chunk_boundary_inside_utf8_sequence", s.chunk_inside_utf8);
     add("chunk_boundary_inside_line", s.chunk_inside_line);
     add("prefix_oracle_checks", s.p_checks);
